@@ -74,11 +74,22 @@ func buildHeader(h HdrJS) *types.WorkObject {
 	wh := wo.WorkObjectHeader()
 	wh.SetPrimeTerminusNumber(new(big.Int).SetUint64(h.PTN))
 	wh.SetNumber(new(big.Int).SetUint64(h.ZoneNum))
-	wh.SetDifficulty(bi(h.MinerDiff))
+	// the block's own difficulty differs from its miner difficulty (falling / rising / equal, derived from the
+	// other fields): a helper that reads header.Difficulty() instead of its `difficulty` argument must show
+	wh.SetDifficulty(blockDifficulty(h))
 	wh.SetLocation(common.Location{0, 0})
 	wh.SetShaDiffAndCount(types.NewPowShareDiffAndCount(bi(h.ShaDiff), bi(h.ShaCount), big.NewInt(0)))
 	wh.SetScryptDiffAndCount(types.NewPowShareDiffAndCount(big.NewInt(0), bi(h.ScryptCount), big.NewInt(0)))
 	return wo
+}
+
+func blockDifficulty(h HdrJS) *big.Int {
+	f := []int64{2, 3, 4, 6, 12}[(h.Number+h.ZoneNum+h.PTN)%5] // x0.5, x0.75, x1, x1.5, x3
+	d := new(big.Int).Div(mul(bi(h.MinerDiff), f), big.NewInt(4))
+	if d.Sign() == 0 {
+		d = big.NewInt(1)
+	}
+	return d
 }
 
 // the inputs of the model's quai_reward / qi_reward: the head of CalculateQuaiReward /
@@ -186,7 +197,13 @@ func z(x *big.Int) string { return hlib.CoqBig(x) }
 
 func runRate(c RateJS, cw *hlib.CaseWriter, rep *hlib.Report) {
 	wo := buildHeader(c.H)
+	// the exchangeRate and difficulty ARGUMENTS differ from every field of the header (ExchangeRate,
+	// MinerDifficulty, Difficulty): the helpers are functions of their arguments
 	k, d, x := bi(c.H.K), bi(c.H.MinerDiff), bi(c.X)
+	if c.ID%3 != 0 {
+		k = new(big.Int).Add(new(big.Int).Div(mul(k, 7), big.NewInt(5)), big.NewInt(3))
+		d = new(big.Int).Add(new(big.Int).Div(mul(d, 5), big.NewInt(4)), big.NewInt(1))
+	}
 	logdiff, deff, kqi := rateInputs(wo, d)
 	var qr, qir, q2q, q2qi, back1, back2 *big.Int
 	func() {
@@ -1009,12 +1026,14 @@ func runMint(c MintJS, cw *hlib.CaseWriter, rep *hlib.Report) {
 		if created != 0 || *usedGas != 0 || rc.Status != types.ReceiptStatusFailed {
 			rep.Fail("mint:pre-kick-in-not-inert", "conversion before the controller kick-in block is not a failed no-op", c)
 		}
+		cw.Add(fmt.Sprintf("(%d%%N, CSettleQi %d %d %s %s)", c.ID, c.PTN, c.Gas, z(value), z(minted)), c)
 		return
 	case c.Gas < params.TxGas:
 		rep.Count("mint:etx-gas-below-txgas")
 		if created != 0 || rc.Status != types.ReceiptStatusFailed || *usedGas != c.Gas {
 			rep.Fail("mint:low-gas-not-inert", "conversion with less than TxGas is not a failed no-op charging its gas", c)
 		}
+		cw.Add(fmt.Sprintf("(%d%%N, CSettleQi %d %d %s %s)", c.ID, c.PTN, c.Gas, z(value), z(minted)), c)
 		return
 	}
 	ok := rc.Status == types.ReceiptStatusLocked
@@ -1268,7 +1287,8 @@ func main() {
 	rep := hlib.NewReport("C20", "helper cases: one call each of the reward/unit-conversion helpers, ApplyCubicDiscount, FindMinDenominations on boundary+random arguments; "+
 		"reprice cases: the verbatim conversion block of (*Slice).Append (re-sliced from core/slice.go on this run, lines "+os.Getenv("VERIF_C20_SLICE")+") on a generated inbound ETX set "+
 		"(0-40 ETXs, both directions, slips none/min/max/garbage, amounts from the origin minimum to beyond 10x the flow amount, both sides of ConversionSlipChangeBlock, rising/falling/frozen new rate). "+
-		"Non-trivial = a reprice case with at least one positive conversion (distinct by outcome pattern and amounts), a cubic-branch discount, a multi-denomination split, a non-zero rate conversion")
+		"controller cases: one call each of misc.CalculateKQuai / core.CalculateBetaFromMiningChoiceAndConversions (every boundary of every fork regime, rising/falling/frozen windows). "+
+		"Non-trivial = a reprice case with at least one positive conversion (distinct by outcome pattern and amounts), a cubic-branch discount, a multi-denomination split, a non-zero rate conversion, a controller step that moves the rate or is decided by the fork schedule")
 	cw := hlib.NewCaseWriter(f.Out, "From Coq Require Import List ZArith NArith Bool.\nFrom GQ Require Import Model.C20.\nImport ListNotations.\nLocal Open Scope Z_scope.\n", "C20.case", 40)
 	defer func() {
 		cw.Close()
@@ -1311,6 +1331,14 @@ func main() {
 			var c RedeemJS
 			hlib.ReadReplayCase(f.Replay, &c)
 			runRedeemConv(c, f.Out, cw, rep)
+		case "kquai":
+			var c KQuaiJS
+			hlib.ReadReplayCase(f.Replay, &c)
+			runKQuai(c, cw, rep)
+		case "beta":
+			var c BetaJS
+			hlib.ReadReplayCase(f.Replay, &c)
+			runBeta(c, cw, rep)
 		case "reprice":
 			var c RepriceJS
 			hlib.ReadReplayCase(f.Replay, &c)
@@ -1563,5 +1591,22 @@ func main() {
 	for i := 0; i < f.N/4+8; i++ {
 		r := rng.Fork()
 		runRedeemConv(genRedeem(r, next()), f.Out, cw, rep)
+	}
+	// ---- exchange-rate controller (extension round): corpus, then random ----
+	for _, c := range corpusKQuai() {
+		c.ID = next()
+		runKQuai(c, cw, rep)
+	}
+	for _, c := range corpusBeta() {
+		c.ID = next()
+		runBeta(c, cw, rep)
+	}
+	for i := 0; i < f.N/2+20; i++ {
+		r := rng.Fork()
+		runKQuai(genKQuai(r, next()), cw, rep)
+	}
+	for i := 0; i < f.N/2+20; i++ {
+		r := rng.Fork()
+		runBeta(genBeta(r, next()), cw, rep)
 	}
 }
